@@ -5,6 +5,7 @@ import (
 	"errors"
 	"fmt"
 	"os"
+	"path/filepath"
 	"sync"
 	"syscall"
 )
@@ -69,8 +70,25 @@ func WithNoFreeFD(fn func()) error {
 	return nil
 }
 
-// ErrInjected is the error returned by injected faults.
+// ErrInjected is the cause of injected faults. What the code under test gets
+// is what the os package would hand it for a failing system call: an
+// *os.PathError naming the operation (read / write / readdirent) whose Err is
+// an errno (EIO, ENOSPC); ErrInjected stays available for errors.Is through
+// injectedErrno.
 var ErrInjected = errors.New("verif: injected I/O failure")
+
+type injectedErrno struct{ syscall.Errno }
+
+func (e injectedErrno) Is(target error) bool { return target == ErrInjected || e.Errno.Is(target) }
+func (e injectedErrno) Unwrap() error        { return e.Errno }
+
+func injected(op, path string) error {
+	errno := syscall.EIO
+	if op == "write" {
+		errno = syscall.ENOSPC
+	}
+	return &os.PathError{Op: op, Path: path, Err: injectedErrno{errno}}
+}
 
 // RecFS records every call and can inject faults. It implements both
 // the par1 and the par2 seam.
@@ -116,8 +134,9 @@ func (f *RecFS) ReadFile(path string) ([]byte, error) {
 		kind = "error"
 	}
 	if kind != "" {
-		f.add(IOEvent{N: n, Op: "read", Path: path, Err: ErrInjected.Error(), Injected: kind})
-		return nil, ErrInjected
+		e := injected("read", path)
+		f.add(IOEvent{N: n, Op: "read", Path: path, Err: e.Error(), Injected: kind})
+		return nil, e
 	}
 	b, err := f.Inner.ReadFile(path)
 	ev := IOEvent{N: n, Op: "read", Path: path, Bytes: len(b)}
@@ -150,8 +169,9 @@ func (f *RecFS) FindWithPrefixAndSuffix(prefix, suffix string) ([]string, error)
 		kind = "error"
 	}
 	if kind != "" {
-		f.add(IOEvent{N: n, Op: "find", Path: prefix, Suffix: suffix, Err: ErrInjected.Error(), Injected: kind})
-		return nil, ErrInjected
+		e := injected("readdirent", filepath.Dir(prefix))
+		f.add(IOEvent{N: n, Op: "find", Path: prefix, Suffix: suffix, Err: e.Error(), Injected: kind})
+		return nil, e
 	}
 	if !ok {
 		return nil, fmt.Errorf("inner fs has no Find")
@@ -185,18 +205,21 @@ func (f *RecFS) WriteFile(path string, data []byte) error {
 	}
 	switch kind {
 	case "error":
-		f.add(IOEvent{N: n, Op: "write", Path: path, Bytes: len(data), Err: ErrInjected.Error(), Injected: kind})
-		return ErrInjected
+		e := injected("write", path)
+		f.add(IOEvent{N: n, Op: "write", Path: path, Bytes: len(data), Err: e.Error(), Injected: kind})
+		return e
 	case "write-zero":
 		// What ioutil.WriteFile leaves behind when the write itself fails:
 		// the file was opened with O_TRUNC.
 		f.Inner.WriteFile(path, nil)
-		f.add(IOEvent{N: n, Op: "write", Path: path, Bytes: len(data), Err: ErrInjected.Error(), Injected: kind})
-		return ErrInjected
+		e := injected("write", path)
+		f.add(IOEvent{N: n, Op: "write", Path: path, Bytes: len(data), Err: e.Error(), Injected: kind})
+		return e
 	case "write-partial":
 		f.Inner.WriteFile(path, data[:len(data)/2])
-		f.add(IOEvent{N: n, Op: "write", Path: path, Bytes: len(data), Err: ErrInjected.Error(), Injected: kind})
-		return ErrInjected
+		e := injected("write", path)
+		f.add(IOEvent{N: n, Op: "write", Path: path, Bytes: len(data), Err: e.Error(), Injected: kind})
+		return e
 	}
 	err := f.Inner.WriteFile(path, data)
 	ev := IOEvent{N: n, Op: "write", Path: path, Bytes: len(data), Sum: SumOf(data)}
